@@ -16,13 +16,13 @@ and a history of 1..12 calls of read(f), read(f, n) (n in 0, 1, 2, 4095..4097, 8
 returned value must equal the next slice of the content (model: a cursor), read(f) and read_to_string(f) take everything that remains, calls at the end return [] / \"\". \
 (stdin, e2e) the same histories on stdin of the real binary, fed through a pipe by a generated schedule of chunk sizes (1 byte .. everything) and pauses; the script copies what each call returned into an output file and prints the lengths. \
 (writes, proptest, in-process) 1..5 episodes on one path, each a script that opens it with mode r/w/a/x (existing or missing), writes strings, byte arrays, single bytes, large repeated strings around the 8192-byte buffer and data read from another file, \
-with or without flush; after every episode (program end) the file must hold exactly what the mode rules and the writes imply; write returns the number of bytes. \
+with or without flush; after every episode (program end) the file must hold exactly what the mode rules and the writes imply; write returns the number of bytes; (shared, proptest, in-process) two handles open on one file at once, the second or both in mode a, 2..8 flushed writes: the file must hold the writes in time order (appending = at the end the file has at that moment; a non-appending first handle writes only before the appender does). \
 Non-trivial: content > 4096 bytes with >= 2 calls of different kinds, or >= 2 pipe chunks, or an episode on an existing file. Distinct by content hash + call sequence.",
     assumptions: &[
-        "read_line / read_to_string on invalid UTF-8, read_to_string(stdin), negative counts and files still open in another handle are don't-care and not generated",
+        "read_line / read_to_string on invalid UTF-8, read_to_string(stdin), negative counts, reads from a file that another handle is writing and positional (w/x) writes after another handle has extended the file are don't-care and not generated",
         "program end means normal termination; exit() with unflushed writers is not generated",
     ],
-    required_classes: &[("reads", 5_000), ("reads:after-partial-buffer", 1_000), ("writes", 1_500), ("writes:mode-a-missing", 50), ("writes:mode-x-existing", 50), ("stdin", 150), ("stdin:multi-chunk", 80)],
+    required_classes: &[("reads", 5_000), ("reads:after-partial-buffer", 1_000), ("writes", 1_500), ("writes:mode-a-missing", 50), ("writes:mode-x-existing", 50), ("stdin", 150), ("stdin:multi-chunk", 80), ("shared:both-handles-wrote", 1_000)],
     exhaustive_when_sections: &[],
 };
 
@@ -587,11 +587,95 @@ fn writes_case(ctx: &mut Ctx, bytes: &[u8]) -> Vec<Violation> {
     out
 }
 
+/// Two handles open on one file at the same time, the second (or both) in mode `a`: every flushed write of an
+/// appending handle lands at the end the file has at that moment. A non-appending first handle does all its writes
+/// before the appender's first one, so nothing is overwritten and the content is the writes in time order.
+fn shared_case(ctx: &mut Ctx, bytes: &[u8]) -> Vec<Violation> {
+    let mut c = Choices::new(bytes);
+    let path = scratch("c21-shared.dat");
+    let _ = std::fs::remove_file(&path);
+    let base: Option<Vec<u8>> = if c.bool() {
+        let k = fill(c.u64(), 1 + c.below(120));
+        let _ = std::fs::write(&path, &k);
+        Some(k)
+    } else {
+        None
+    };
+    let m1 = match c.below(4) {
+        0 => 'w',
+        1 if base.is_none() => 'x',
+        _ => 'a',
+    };
+    let nops = 2 + c.below(7);
+    let split = 1 + c.below(nops - 1);
+    let mut ops: Vec<(usize, Data)> = Vec::new();
+    for i in 0..nops {
+        let h = if m1 == 'a' { c.below(2) } else if i < split { 0 } else { 1 };
+        let d = loop {
+            let d = gen_data(&mut c);
+            if !matches!(d, Data::FromFile(_)) {
+                break d;
+            }
+        };
+        ops.push((h, d));
+    }
+    let mut want: Vec<u8> = if m1 == 'a' { base.clone().unwrap_or_default() } else { Vec::new() };
+    let mut src = format!("let f0 = open(\"{}\", \"{}\");\nlet f1 = open(\"{}\", \"a\");\nlet log = [];\n", path, m1, path);
+    let mut want_log: Vec<Val> = Vec::new();
+    for (h, d) in &ops {
+        let arg = match d {
+            Data::Str(s) => format!("\"{}\"", s),
+            Data::Repeat(s, n) => format!("\"{}\" * {}", s, n),
+            Data::Bytes(b) => format!("[{}]", b.iter().map(|x| super::super::render::byte_lit(*x)).collect::<Vec<_>>().join(", ")),
+            Data::Byte(b) => super::super::render::byte_lit(*b),
+            Data::FromFile(_) => unreachable!(),
+        };
+        src.push_str(&format!("push(log, write(f{}, {}));\nflush(f{});\n", h, arg, h));
+        let b = d.bytes();
+        want_log.push(Val::Int(b.len() as i64));
+        want.extend_from_slice(&b);
+    }
+    src.push_str("log");
+    let both = ops.iter().any(|(h, _)| *h == 0) && ops.iter().any(|(h, _)| *h == 1);
+    ctx.case(hash_bytes(bytes), both);
+    ctx.class("shared");
+    if both {
+        ctx.class("shared:both-handles-wrote");
+    }
+    guard("shared", "src", &src);
+    let case = json!({"shared": true, "seed": hex(bytes)});
+    let mut out = Vec::new();
+    match run_text(&src) {
+        Outcome::Ran(r) => match (r.err, r.last) {
+            (Some((m, l)), _) => out.push(Violation::new("shared", format!("runtime-error:{}", msg_class(&m)), format!("line {}: {}\n{}", l, m, src.chars().take(1500).collect::<String>()), case)),
+            (None, log) => {
+                let on_disk = std::fs::read(&path).unwrap_or_default();
+                if !Val::Arr(want_log.clone()).same(&log) {
+                    out.push(Violation::new("shared", "shared:write-return", format!("the writes returned {}, expected {}\n{}", short(&log), short(&Val::Arr(want_log)), src.chars().take(1500).collect::<String>()), case));
+                } else if on_disk != want {
+                    let kind = if on_disk.len() < want.len() { "bytes-lost" } else if on_disk.len() > want.len() { "extra-bytes" } else { "different-bytes" };
+                    out.push(Violation::new(
+                        "shared",
+                        format!("shared:file-content:{}+a:{}", m1, kind),
+                        format!("two handles (modes {} and a) on one file: it holds {} bytes, expected {} (the flushed writes in time order{})\n{}", m1, on_disk.len(), want.len(), if m1 == 'a' { " after the old content" } else { "" }, src.chars().take(1500).collect::<String>()),
+                        case,
+                    ));
+                }
+            }
+        },
+        Outcome::Panic(p) => out.push(Violation::new("shared", p.signature(), format!("{}\n{}", p.describe(), src.chars().take(1500).collect::<String>()), case)),
+        o => out.push(Violation::new("shared", "harness:script-rejected", format!("{}\n{}", o.tag(), src.chars().take(800).collect::<String>()), case)),
+    }
+    let _ = std::fs::remove_file(&path);
+    out
+}
+
 pub fn run(ctx: &mut Ctx) {
     let n = ctx.nshards as u32;
     drive(ctx, "reads", ctx.tier.pick(24_000, 800_000) / n, 32, 300, |ctx, b| reads_case(ctx, b));
     ctx.more_samples(2);
     drive(ctx, "writes", ctx.tier.pick(8_000, 300_000) / n, 32, 300, |ctx, b| writes_case(ctx, b));
+    drive(ctx, "shared", ctx.tier.pick(4_000, 150_000) / n, 32, 200, |ctx, b| shared_case(ctx, b));
     // the e2e part is spread over few shards: process creation does not scale here
     set_shrink_iters(80);
     ctx.more_samples(2);
@@ -602,6 +686,13 @@ pub fn run(ctx: &mut Ctx) {
 }
 
 pub fn replay(section: &str, case: &Value, ctx: &mut Ctx) {
+    if case.get("shared").is_some() {
+        let seed = unhex(case["seed"].as_str().unwrap_or(""));
+        for v in shared_case(ctx, &seed) {
+            ctx.report(v);
+        }
+        return;
+    }
     if case.get("writes").is_some() {
         let seed = unhex(case["seed"].as_str().unwrap_or(""));
         for v in writes_case(ctx, &seed) {
